@@ -235,6 +235,20 @@ class C04(PropCheck):
                 vals = f['detail']['meta'].get('values')
                 if vals and len(vals) <= 5:
                     seqs.insert(0, vals)
+        # pagination level: documents on which the code left the model and an adjacency / orphans-widows /
+        # named-page clause fails
+        import random
+        rng = random.Random(run.seed + 404)
+        for _ in range(run.n(1500, 8000)):
+            doc = break_heavy_doc(rng)
+            out = pm_corr.real_line(doc)
+            run.search_stats['evaluations'] += 1
+            what = pm_break_violation(doc, out)
+            if what and out != pm_corr.model_line(self, doc):
+                small = pm.shrink(doc, lambda c: bool(pm_break_violation(c, pm_corr.real_line(c))), 120)
+                found.append({'what': what, 'input': {'meta': {'doc': pm_corr.doc_json(small)},
+                                                      'html': pm.doc_html(small)}, 'signature': 'pm-breaks'})
+                return found
         seqs.sort(key=len)
         for values in seqs[:400]:
             for k in range(len(values) + 1):
@@ -257,10 +271,14 @@ class C04(PropCheck):
         return 'column' in values and any(v in AVOID_PAGE for v in values)
 
     def finding_replays(self):
-        return {'column-hides-avoid': lambda: doc_violation_raw(['column', 'avoid'], 1)}
+        return {'column-hides-avoid': lambda: doc_violation_raw(['column', 'avoid'], 1),
+                'named-to-unnamed-no-break': named_to_unnamed}
 
     def replay(self, data):
         inp = data.get('input', {})
+        if 'meta' in inp and isinstance(inp['meta'], dict) and 'doc' in inp['meta']:
+            doc = pm_corr.doc_from_json(inp['meta']['doc'])
+            return pm_break_violation(doc, pm_corr.real_line(doc))
         if 'html' in inp:
             return doc_violation(inp['values'], inp['k'])
         if 'meta' in inp and inp['meta'].get('values'):
@@ -314,8 +332,11 @@ def break_heavy_doc(rng):
         if rng.random() < 0.3:
             st['brkAfter'] = rng.choice(VALUES)
         st['height'] = 'auto'
+        if named and rng.random() < 0.35:
+            st['page'] = rng.choice(['pa', 'pb'])
         for kid in box['kids']:
             walk(kid)
+    named = rng.random() < 0.4       # documents exercising named pages at every depth
     walk(doc['root']['kids'][0])
     return doc
 
@@ -415,6 +436,26 @@ def pm_break_violation(doc, impl_out):
     if bad:
         return bad
 
+    # the page type's name is the used `page` of the first content placed on the page
+    used = {}
+
+    def names(box, inherited):
+        name = box['st']['page'] or inherited
+        used[box['id']] = name
+        for kid in box['kids']:
+            names(kid, name)
+    names(doc['root'], '')
+    for page in pages:
+        if page[3] == 'true':
+            continue
+        frag = page[-1]
+        while frag[0] == 'b' and frag[-1]:
+            frag = frag[-1][0]
+        want = used.get(int(frag[1]), '')
+        got = '' if page[4] == '-' else page[4]
+        if want and want != got:       # (named -> unnamed is the known finding named-to-unnamed-no-break)
+            return f'page {page[1]} has page type name {got!r} but its first content (box {frag[1]}) uses page {want!r}'
+
     def check(box):
         kids = box['kids']
         for a, b in zip(kids, kids[1:]):
@@ -436,6 +477,14 @@ def pm_break_violation(doc, impl_out):
                 return bad
         return None
     return check(doc['root'])
+
+
+def named_to_unnamed():
+    """`page: a` followed by an unnamed sibling: no page break, and the following page keeps the name."""
+    docs.quiet()
+    document = docs.render('<style>@page{size:100px 200px}@page a{size:50px 200px}html,body,p{margin:0}</style>'
+                           '<p style="page:a">aa</p><p>bb</p>')
+    return len(document.pages) == 1
 
 
 def tuple_tree(t):
